@@ -13,8 +13,9 @@ checks = sys.argv[3:]
 d = os.path.join(V, "seeded", name)
 stage = "/tmp/vstage-%s" % slot
 repo = "/tmp/repo-%s" % slot
-subprocess.run(["rsync", "-a", "--delete", "--exclude", ".git", "--exclude", "replays", "--exclude", "*.lock",
-                V + "/", stage + "/"], check=True)
+rc = subprocess.run(["rsync", "-a", "--delete", "--exclude", ".git", "--exclude", "replays", "--exclude", "*.lock",
+                     "--exclude", "*.tmp", V + "/", stage + "/"]).returncode
+assert rc in (0, 24), "rsync failed: %d" % rc  # 24 = a file vanished while copying (a build is running in /verif)
 shutil.rmtree(repo, ignore_errors=True)
 subprocess.run(["git", "clone", "-q", "/repo", repo], check=True)
 subprocess.run(["git", "-C", repo, "apply", os.path.join(d, "patch.diff")], check=True)
